@@ -28,7 +28,8 @@ AllRules == {"C03.Frame",
              "C04.Accept", "C04.Reject", "C04.Effect", "C04.Ticks", "C03.Ticks",
              "C05.NoPanic", "C05.Atomic", "C05.Valid", "C05.ExitCode",
              "C11.Style", "C11.Deterministic", "C11.Accepted",
-             "C17.NoPanic", "C17.Time", "C17.Unrepresentable"}
+             "C17.NoPanic", "C17.Time", "C17.Unrepresentable",
+             "X.Predicted"}
 RuleNames == {r \in AllRules : \E p \in Prefixes : StartsWith(r, p)}
 
 FromObsEntry(e) == [kind |-> e.kind, a |-> e.a, b |-> e.b, canon |-> e.canon, summary |-> e.summary]
@@ -36,88 +37,6 @@ FromObsRec(r) == LET d == ParseDate(r.date) IN
                  [date |-> [ord |-> d.ord, dashes |-> d.dashes], should |-> r.should, summary |-> r.summary,
                   entries |-> [i \in 1..Len(r.entries) |-> FromObsEntry(r.entries[i])]]
 FromObs(rs) == [k \in 1..Len(rs) |-> FromObsRec(rs[k])]
-
-(* where the entry a command rewrites sits in the file before *)
-Loc(PP, t, i) == LET b == PP.blocks[t]  e == PP.recs[t].entries[i] IN
-                 [f |-> b.sigFirst + e.first - 1, la |-> b.sigFirst + e.last - 1, e |-> e]
-
-FrameOK(cmd, M, PP, P, Q) ==
-    CASE cmd.op \in {"track", "start", "create"} -> FrameAppend(P, Q)
-      [] cmd.op = "pause" /\ ~cmd.extend -> FrameAppend(P, Q)
-      [] cmd.op = "pause" /\ cmd.extend ->
-            LET lc == Loc(PP, M.t, M.i) IN
-            FrameReplace(P, Q, lc.f, lc.f, lc.e.valFrom, lc.e.valTo, FALSE, Len(P), Len(P)) /\ Len(Q) = Len(P)
-      [] cmd.op = "stop" ->
-            LET lc == Loc(PP, M.t, M.i) IN
-            FrameReplace(P, Q, lc.f, lc.la, lc.e.qFrom, lc.e.qTo, TRUE, lc.la, lc.la)
-      [] cmd.op = "switch" ->
-            LET lc == Loc(PP, M.t, M.i) IN
-            FrameReplace(P, Q, lc.f, lc.la, lc.e.qFrom, lc.e.qTo, FALSE, lc.la, Len(P)) /\ Len(Q) > Len(P)
-
-(* the candidate blocks of added lines: when an added line equals a neighbouring line the   *)
-(* decomposition is not unique, and a style predicate holds if it holds for some candidate *)
-AddedBlocks(P, Q) == {SubSeq(Q, k + 1, k + Len(Q) - Len(P)) : k \in InsPoints(P, Q)}
-(* for stop / switch: the lines added after the rewritten entry *)
-AddedAfterReplace(P, Q, lc, kmax) ==
-    LET m == Len(Q) - Len(P)
-        ks == {k \in lc.la..kmax :
-                 /\ \A i \in (lc.la + 1)..k : Q[i] = P[i] \/ SameButEol(P[i], Q[i])
-                 /\ \A i \in (k + 1)..Len(P) : Q[i + m] = P[i]}
-    IN  {SubSeq(Q, k + 1, k + m) : k \in ks}
-
-ClockAllowed(cmd, cfg, PP, t) ==
-    IF cmd.time # "" THEN {ParseTime(cmd.time).h12}
-    ELSE IF cfg.timeconv = "24h" THEN {FALSE}
-    ELSE IF cfg.timeconv = "12h" THEN {TRUE}
-    ELSE Allowed(ExClock, PP, t, FALSE)
-DashesAllowed(cmd, cfg, PP) ==
-    IF cmd.dsel = "date" THEN {ParseDate(cmd.date).dashes}
-    ELSE IF cfg.datefmt = "YYYY-MM-DD" THEN {TRUE}
-    ELSE IF cfg.datefmt = "YYYY/MM/DD" THEN {FALSE}
-    ELSE Allowed(ExDashes, PP, 0, TRUE)
-
-OpenNotationOK(line, cmd, cfg, PP, t) ==
-    LET v == ParseValue(Drop(line, Len(LeadBlank(line)))) IN
-    /\ v.ok /\ v.kind = "open"
-    /\ v.sh12 \in ClockAllowed(cmd, cfg, PP, t)
-    /\ v.spaced \in Allowed(ExSpaced, PP, t, TRUE)
-    /\ v.nq \in Allowed(ExNq, PP, t, 1)
-HeadDateOK(A, cmd, cfg, PP) ==
-    LET h == HeadlineOf(A)
-        d == ParseDate(Take(h, FindIn(h, 1, SpTab) - 1))
-    IN  d.ok /\ d.dashes \in DashesAllowed(cmd, cfg, PP)
-NonBlank(A) == SelectSeq(A, LAMBDA x : x.text # "")
-
-(* style and notation of what a command added *)
-StyleOK(cmd, cfg, M, PP, P, Q) ==
-    LET inds(t) == Allowed(ExIndent, PP, t, "    ")
-        eols(t) == Allowed(ExEol, PP, t, LF)
-        newRec(A) == /\ NewRecordStyled(A, inds(0), eols(0))
-                     /\ HeadDateOK(A, cmd, cfg, PP)
-                     /\ cmd.op = "start" => Len(NonBlank(A)) >= 2 /\ OpenNotationOK(NonBlank(A)[2].text, cmd, cfg, PP, 0)
-        newEntry(A, t) == /\ EntryBlockStyled(A, inds(t), eols(t))
-                          /\ cmd.op \in {"start", "switch"} => OpenNotationOK(A[1].text, cmd, cfg, PP, t)
-    IN
-    CASE cmd.op \in {"track", "start", "create"} \/ (cmd.op = "pause" /\ ~cmd.extend) ->
-            IF BlankOnly(P) THEN newRec(Q)
-            ELSE \E A \in AddedBlocks(P, Q) : IF M.kind = "create" \/ M.t = 0 THEN newRec(A) ELSE newEntry(A, M.t)
-      [] cmd.op = "stop" ->
-            LET lc == Loc(PP, M.t, M.i)
-                ind == PP.recs[M.t].indent
-                q == Q[lc.f].text
-                te == FindIn(q, lc.e.qFrom, SpTab)
-                tm == ParseTime(Mid(q, lc.e.qFrom, te - 1))
-            IN  /\ tm.ok /\ tm.h12 \in ClockAllowed(cmd, cfg, PP, M.t)
-                /\ \E A \in AddedAfterReplace(P, Q, lc, lc.la) :
-                      \A j \in 1..Len(A) : A[j].eol \in eols(M.t) /\ StartsWith(A[j].text, ind \o ind)
-      [] cmd.op = "switch" ->
-            LET lc == Loc(PP, M.t, M.i)
-                q == Q[lc.f].text
-                te == FindIn(q, lc.e.qFrom, SpTab)
-                tm == ParseTime(Mid(q, lc.e.qFrom, te - 1))
-            IN  /\ tm.ok /\ tm.h12 \in ClockAllowed(cmd, cfg, PP, M.t)
-                /\ \E A \in AddedAfterReplace(P, Q, lc, Len(P)) : A # <<>> /\ newEntry(A, M.t)
-      [] OTHER -> TRUE
 
 (* pause sessions: the file after `pause` started and after every iteration of its loop.  After the *)
 (* k-th clock reading the pause entry is extended by the whole minutes elapsed so far (never reduced), *)
@@ -164,6 +83,9 @@ Holds(r, ev, PP, M) ==
             /\ \A k \in 1..Len(cmd.ticks) : TickDataOK(cmd, M, F, k)
       [] r = "C03.Ticks" -> judged /\ cmd.op = "pause" /\ M.st = "ok" /\ o.code = 0 /\ Len(o.tick_files) = Len(cmd.ticks) + 1 =>
             \A k \in 1..Len(cmd.ticks) : TickFrameOK(cmd, M, o.tick_files, k)
+      (* drift metric, never a verdict: does the real result equal the prediction of the tight text-level model? *)
+      [] r = "X.Predicted" -> live /\ c.pre = c.predpre /\ c.pred.st # "unspec" =>
+            IF c.pred.st = "ok" THEN o.code = 0 /\ o.post = c.pred.text ELSE o.code # 0
       [] r = "C05.NoPanic" -> ev.panic = ""
       [] r = "C05.Atomic" -> live /\ o.code # 0 => o.post = c.pre /\ ~o.touched
       [] r = "C05.Valid" -> live /\ o.code = 0 => o.parsed_ok /\ ParseDoc(o.post).status # "Violating"
